@@ -464,6 +464,7 @@ func genCond(thorough bool) Gen {
 			{"lnil", func() Expr { return Name("lnil") }},                   // falsy non-boolean
 			{"call", func() Expr { return CallN("tick", Num(1)) }},          // side effect, returns its argument
 			{"callf", func() Expr { return CallN("tick", False()) }},        // side effect, returns false
+			{"calln", func() Expr { return CallN("tick", Nil()) }},          // side effect, returns nil
 		}
 		type tree struct {
 			name  string
@@ -489,7 +490,7 @@ func genCond(thorough bool) Gen {
 				for _, t := range prev {
 					if t.depth == 0 {
 						switch t.name {
-						case "true", "nil", "lt", "gt", "num", "call", "callf":
+						case "true", "nil", "lt", "gt", "num", "call", "callf", "calln":
 							pool = append(pool, t)
 						}
 					} else {
@@ -534,6 +535,10 @@ func genCond(thorough bool) Gen {
 			}{
 				{"value", func() []Stat { return []Stat{Emit(t.mk())} }},
 				{"local", func() []Stat { return []Stat{Local1("x", t.mk()), Emit(Name("x"))} }},
+				// stores into a variable that already exists: on every path the old value must be replaced
+				{"setlocal", func() []Stat { return []Stat{Local1("x", Str("old")), Assign1(Name("x"), t.mk()), Emit(Name("x"))} }},
+				{"setupval", func() []Stat { return []Stat{Assign1(Name("up"), t.mk()), Emit(Name("up"))} }},
+				{"setfield", func() []Stat { return []Stat{Assign1(Dot(Name("t"), "x"), t.mk()), Emit(Dot(Name("t"), "x"))} }},
 				{"if", func() []Stat { return []Stat{IfElse(t.mk(), []Stat{Emit(Num(1))}, []Stat{Emit(Num(2))})} }},
 				{"while", func() []Stat { return []Stat{While(t.mk(), Emit(Num(1)), Break()), Emit(Num(3))} }},
 				{"return", func() []Stat { return []Stat{Return(t.mk())} }},
